@@ -3,6 +3,9 @@ open CaddyModel.C17
 #print axioms fmt_total
 #print axioms fmt_output_bound
 #print axioms fmt_ends_with_single_newline
+#print axioms fmt_canonical_on_W
+#print axioms fmt_preserves_tokens_partial
+#print axioms fmt_idempotent_partial
 #print axioms fmt_preserves_tokens_full_fails
 #print axioms fmt_idempotent_full_fails
 #print axioms token_witnesses_all_fail
